@@ -38,7 +38,7 @@ def main():
     env = dict(os.environ, PYTHONPATH=wt + '/src')
     out = {'seed': seed, 'property': pid}
     head = sh('git -C /repo rev-parse HEAD')[1].strip()
-    sh('git checkout -q -- . && git clean -fdq && git checkout -q --detach %s' % head, cwd=wt)
+    sh('git reset -q --hard && git clean -fdq && git checkout -q --detach %s' % head, cwd=wt)
     out['repo_head'] = head[:7]
     rc, o = sh('/venv/bin/python %s/demo.py' % seed, cwd=wt, env=env)
     out['demo_clean'] = 'PASS' if rc == 0 else 'FAIL(rc=%d) %s' % (rc, o[-300:])
@@ -48,6 +48,7 @@ def main():
     out['applies'] = rc == 0
     if rc != 0:
         out['apply_error'] = o[-300:]
+        sh('git reset -q --hard && git clean -fdq', cwd=wt)
         print(json.dumps(out))
         return 2
     rc, o = sh('/venv/bin/python -m pytest -q -p no:cacheprovider 2>&1 | tail -1', cwd=wt, env=env)
@@ -64,7 +65,7 @@ def main():
         viol = [ln for ln in o.splitlines() if ln.startswith('VIOLATION') or ln.strip().startswith('counterexample')]
         out['checks'][cid] = {'rc': rc, 'wall_s': round(time.time() - t0), 'lines': [v[:400] for v in viol][:8],
                               'summary': [ln for ln in o.splitlines() if 'tier=' in ln][-1:]}
-    sh('git checkout -q -- . && git clean -fdq', cwd=wt)
+    sh('git reset -q --hard && git clean -fdq', cwd=wt)
     if a.keep:
         dst = os.path.join(ROOT, 'seeded', a.keep)
         os.makedirs(dst, exist_ok=True)
